@@ -63,7 +63,8 @@ func (asc *AudioSpecificConfig) Decode(config []byte) (err error) {
 	asc.Sbr = -1
 	asc.Ps = -1
 	if asc.ObjectType == AOT_SBR || (asc.ObjectType == AOT_PS &&
-		0 == r.Peek(3)&0x03 && 0 == r.Peek(9)&0x3F) { // check for W6132 Annex YYYY draft MP3onMP4
+		// check for W6132 Annex YYYY draft MP3onMP4
+		!(r.Peek(3)&0x03 != 0 && r.Peek(9)&0x3F == 0)) {
 		if asc.ObjectType == AOT_PS {
 			asc.Ps = 1
 		}
